@@ -29,6 +29,16 @@ def check(rep, ctx):
     R_V = rep.rule("C05-v-length-domain", "a length-limited writer accepts every length its prefix format can carry (what the "
                    "reader can return, the writer can write)", floor=300,
                    necessary_because="a legacy string of exactly 32767 bytes is decoded but cannot be re-encoded")
+    R_D = rep.rule("C05-vi-tagged-default", "a tagged field is omitted only when it equals the default the definition gives it (a canonical "
+                   "encoding that carries any other value must be written back)", floor=50,
+                   necessary_because="UpdateRaftVoterResponse with current_leader=(0, 0, '', 0) is canonical with the tag present; a writer that "
+                                     "takes (0, 0, '', 0) for the default re-encodes 23 bytes as 7")
+    from .wire import writer_elision_constants
+    for key, cls, plan in W.classes():
+        if not plan["error"] and plan["writer"].get("flexible"):
+            for f, consts, want in writer_elision_constants(W, key, cls, plan):
+                rep.check(R_D, consts == [want], construct=f"{key}.{f['name']}", stmt=f"elided when equal to {consts}",
+                          message=f"the writer omits the field when it equals {consts} but the definition's default is {want}", **W.floc(cls, f))
     for key, cls, plan in W.classes():
         if plan["error"]:
             rep.check(R_C, False, construct=key, stmt=str(plan["error"]), message=f"no plan: {plan['error']}", **W.floc(cls, cls))
